@@ -1063,6 +1063,43 @@ class Explorer:
         finally:
             self.solver.pop()
 
+    def diverse_witness(self):
+        """A witness of the current path whose real / integer variables are, as far as the path
+        condition allows, pairwise different small non-zero grid values (used for model-gap paths,
+        where the real code is run instead: an all-zero witness would hide most defects)."""
+        import random
+        rng = random.Random(len(self.vars) * 7919 + self.n_paths)
+        self.solver.push()
+        try:
+            k = 0
+            for name, v in self.vars.items():
+                if name == 'pi' or z3.is_bool(v) or not (z3.is_real(v) or z3.is_int(v)):
+                    continue
+                k += 1
+                for attempt in range(3):
+                    cand = (k * 3 + rng.randrange(1, 9) + 5 * attempt)
+                    c = z3.RealVal(cand) / 4 if z3.is_real(v) else z3.IntVal(cand % 7 + attempt)
+                    self.solver.push()
+                    self.solver.add(v == c)
+                    self.n_queries += 1
+                    if self.solver.check() == z3.sat:
+                        break          # keep this assignment (stays pushed)
+                    self.solver.pop()
+            if self.solver.check() == z3.sat:
+                return model_values(self.solver.model(), self.vars)
+        except z3.Z3Exception:
+            pass
+        finally:
+            # pop everything pushed in this call
+            while True:
+                try:
+                    self.solver.pop()
+                except z3.Z3Exception:
+                    break
+                if self.solver.num_scopes() == 0:
+                    break
+        return self.witness()
+
     def witness(self):
         """Concrete values of all declared variables under the current model."""
         if self.model is None:
@@ -1114,7 +1151,8 @@ class Explorer:
         if self.pos < len(self.prefix):
             return
         self.n_obligations += 1
-        self._violation(label, self.witness(), detail)
+        # every input on this path fails alike: report one with diverse, non-zero values
+        self._violation(label, self.diverse_witness(), detail)
 
     # ---- main loop
     def run(self, fn, max_violations=50, initial=None, split_at=None):
